@@ -165,12 +165,12 @@ inductive Acc where
 def intAcc (x : Num) : Acc :=
   if x.isInt || x.isZero then .exact else if x.signbit then .above else .below
 
-/-- `IntFunc`: identity on integers; otherwise `bf.Int(nil)` into a fresh `big.Float`.
-`bf.Int(nil)` of ±Inf is a nil `*big.Int`, which `SetInt` dereferences. -/
+/-- `IntFunc`: identity on integers and on infinities; otherwise `bf.Int(nil)` into a
+fresh `big.Float` (`bf.Int(nil)` would be a nil `*big.Int` only for ±Inf). -/
 def intImpl (args : List Value) : Res Value := do
   let a ← arg args 0
   let bf ← asBigFloat a
-  if bf.isInt then pure a
+  if bf.isInt || bf.isInf then pure a
   else match bf.truncInt with
     | none => .panic "nil pointer dereference"
     | some i => pure (Value.numVal (Num.setIntP i 0))
@@ -227,13 +227,17 @@ def numberFloatVal : F64 → Res Value
 def logImpl (lib : Num → Num → F64) (args : List Value) : Res Value := do
   let num ← fromCtyFloat (← arg args 0)
   let base ← fromCtyFloat (← arg args 1)
-  numberFloatVal (lib num base)
+  match lib num base with
+  | .nan => .err "the logarithm is not a real number"        -- `if math.IsNaN(result)`
+  | result => numberFloatVal result
 
 /-- `PowFunc`; `lib num power` stands for `math.Pow(num, power)` -/
 def powImpl (lib : Num → Num → F64) (args : List Value) : Res Value := do
   let num ← fromCtyFloat (← arg args 0)
   let power ← fromCtyFloat (← arg args 1)
-  numberFloatVal (lib num power)
+  match lib num power with
+  | .nan => .err "the power is not a real number"            -- `if math.IsNaN(result)`
+  | result => numberFloatVal result
 
 /-! ### parseint: `(&big.Int{}).SetString(numstr, base)` for 2 ≤ base ≤ 62 -/
 
